@@ -17,7 +17,9 @@ type Universe struct {
 	Lits    []model.LitSpec
 }
 
-func ts(sec int64, nsec, off int) model.TimeSpec { return model.TimeSpec{Sec: sec, Nsec: nsec, Off: off} }
+func ts(sec int64, nsec, off int) model.TimeSpec {
+	return model.TimeSpec{Sec: sec, Nsec: nsec, Off: off}
+}
 
 // BaseSec is 2006-01-02T15:04:05Z.
 const BaseSec = int64(1136214245)
@@ -25,7 +27,7 @@ const BaseSec = int64(1136214245)
 // DefaultUniverse returns the fixed vocabulary (generation picks subsets).
 func DefaultUniverse() Universe {
 	return Universe{
-		Nodes: []model.NodeSpec{{Type: "/u", ID: "a"}, {Type: "/u", ID: "b"}, {Type: "/u", ID: "c"}, {Type: "/t", ID: "a"}, {Type: "/u/x", ID: "model s"}, {Type: "/t", ID: "é"}},
+		Nodes:   []model.NodeSpec{{Type: "/u", ID: "a"}, {Type: "/u", ID: "b"}, {Type: "/u", ID: "c"}, {Type: "/t", ID: "a"}, {Type: "/u/x", ID: "model s"}, {Type: "/t", ID: "é"}},
 		PredIDs: []string{"p", "q", "knows", "_r"},
 		Anchors: []model.TimeSpec{ts(BaseSec, 0, 0), ts(BaseSec, 0, 3600), ts(BaseSec+86400, 500000000, 0), ts(BaseSec-365*86400, 0, -8*3600), ts(BaseSec+86400, 0, 0)},
 		Lits: []model.LitSpec{
